@@ -1,3 +1,167 @@
-import PybtexModel.Model.Basic
+/-
+C10 — the `.bib` reader is total: located pybtex errors only, confined to the bad entry.
+
+Property theorems only, about the model `Model/BibParse.lean` (`Pybtex.Bib.parseBib`, which the
+correspondence check compares with `pybtex.database.parse_string` in capture and strict mode).
+Helper lemmas: `Lemmas/BibTotal.lean`.
+
+`parseBib text strict wanted macros0 roles` returns the final reader state (`db`, the list `errs`
+of problems reported through `handle_error`, the unread `rest`) and the error that left the
+reader (`some e` = raised).  All theorems hold for every text, mode, wanted-set, initial macro
+table and person-field list.
+-/
+import PybtexModel.Lemmas.BibTotal
+
 namespace Pybtex.Props
+open Pybtex Pybtex.Bib
+
+/-- **Totality.**  The model is a total function (structural recursion; its loops carry a fuel
+argument = remaining length + 1).  The content: the fuel never runs out and no impossible
+branch is taken — no error of kind `internal` is ever reported or raised; and when nothing was
+raised the whole text has been read (no `@` is left unread: reading continued after each error).
+(`nameTooDeep`, the `BibTeXError` of `Person()` on a name nested deeper than 100 braces, is *not*
+excluded here: it is reachable through an initial macro table `macros0` with such a value.) -/
+theorem C10_total (text : Str) (strict : Bool) (wanted : Option (List Str))
+    (macros0 : List (Str × Str)) (roles : List Str) :
+    (∀ e ∈ (parseBib text strict wanted macros0 roles).1.errs, e.kind ≠ .internal) ∧
+    (∀ e, (parseBib text strict wanted macros0 roles).2 = some e → e.kind ≠ .internal) ∧
+    ((parseBib text strict wanted macros0 roles).2 = none →
+      '@' ∉ (parseBib text strict wanted macros0 roles).1.rest) := by
+  obtain ⟨hI, _, hE, hR⟩ := parseBib_good text strict wanted macros0 roles
+  exact ⟨fun e he => (hI.2.2 e he).1, fun e he => (hE e he).1, fun h hc => hR h _ hc rfl⟩
+
+/-- **Located.**  Every syntax error (`TokenRequired`, `PrematureEOF`, "too many nested braces",
+"unbalanced braces", `UndefinedMacro`) that is reported or raised carries a line number, and that
+number is a line of the text: `1 ≤ ℓ ≤ 1 + (number of line breaks \r\n | \r | \n)`. -/
+theorem C10_located (text : Str) (strict : Bool) (wanted : Option (List Str))
+    (macros0 : List (Str × Str)) (roles : List Str) (e : Err)
+    (he : e ∈ (parseBib text strict wanted macros0 roles).1.errs ∨
+          (parseBib text strict wanted macros0 roles).2 = some e)
+    (hk : (∃ d, e.kind = .tokenRequired d) ∨ e.kind = .prematureEOF ∨ e.kind = .tooManyBraces ∨
+          e.kind = .unbalancedBraces ∨ (∃ n, e.kind = .undefinedMacro n)) :
+    ∃ l, e.line = some l ∧ 1 ≤ l ∧ l ≤ 1 + countNl text := by
+  obtain ⟨hI, _, hE, _⟩ := parseBib_good text strict wanted macros0 roles
+  have hok : okErr (1 + countNl text) e := by
+    rcases he with he | he
+    · exact hI.2.2 e he
+    · exact hE e he
+  apply hok.2
+  rcases hk with ⟨d, h⟩ | h | h | h | ⟨n, h⟩ <;> rw [h] <;> rfl
+
+/-- a text with two entries and one error on its second line: the hypotheses of `C10_located` are
+met by a reported error (continue mode) and by a raised one (strict mode), and the bound is tight -/
+theorem C10_located_nonvacuous :
+    (parseBib "@a{k, t = 1}\n@b{j, u = }\n".toList false none).1.errs
+        = [⟨.tokenRequired "field value", some 2⟩] ∧
+    (parseBib "@a{k, t = 1}\n@b{j, u = }\n".toList false none).2 = none ∧
+    (parseBib "@a{k, t = 1}\n@b{j, u = }\n".toList false none).1.db.entries.map (·.key)
+        = ["k".toList, "j".toList] ∧
+    (parseBib "@a{k, t = 1}\n@b{j, u = }\n".toList true none).2
+        = some ⟨.tokenRequired "field value", some 2⟩ ∧
+    (parseBib "@a{k, t = 1}\r\n@b{j, u = ".toList false none).1.errs = [⟨.prematureEOF, some 2⟩] ∧
+    1 + countNl "@a{k, t = 1}\r\n@b{j, u = ".toList = 2 := by decide +kernel
+
+/-- **Modes.**  Strict reading is continue-mode (capture / non-strict) reading cut at the first
+problem.  Let `c` be the continue-mode run and `t` the strict run of the same text.
+* `c` raises nothing — except the `BibTeXError` of `Person()` on a name nested deeper than 100
+  braces, which `pybtex` does not route through `handle_error` (see `C10_total`);
+* if `c` reported nothing, `t` ends exactly like `c` (same outcome, same database, same unread rest);
+* if `c` reported `e` first, `t` raises `e`. -/
+theorem C10_modes (text : Str) (wanted : Option (List Str)) (macros0 : List (Str × Str))
+    (roles : List Str) :
+    let c := parseBib text false wanted macros0 roles
+    let t := parseBib text true wanted macros0 roles
+    (c.2 = none ∨ c.2 = some ⟨.nameTooDeep, none⟩) ∧
+    (c.1.errs = [] → t.2 = c.2 ∧ t.1.db = c.1.db ∧ t.1.rest = c.1.rest ∧ t.1.errs = []) ∧
+    (∀ e tl, c.1.errs = e :: tl → t.2 = some e) := by
+  intro c t
+  obtain ⟨h1, h2⟩ := parseBib_sim text wanted macros0 roles
+  have h0 : (initSt text false wanted macros0 roles).errs = [] := rfl
+  rw [h0] at h2
+  refine ⟨h1, ?_, ?_⟩
+  · intro hc
+    rcases h2 with ⟨_, h2⟩ | ⟨e, tl, s', h2, _⟩
+    · have ht : t = (setStrict c.1, c.2) := h2
+      rw [ht]
+      exact ⟨rfl, rfl, rfl, hc⟩
+    · rw [show (parseBib text false wanted macros0 roles).1.errs = [] from hc] at h2
+      cases h2
+  · intro e tl hc
+    rcases h2 with ⟨h2, _⟩ | ⟨e', tl', s', h2, h3⟩
+    · rw [show (parseBib text false wanted macros0 roles).1.errs = e :: tl from hc] at h2
+      cases h2
+    · rw [show (parseBib text false wanted macros0 roles).1.errs = e :: tl from hc] at h2
+      simp only [List.nil_append, List.cons.injEq] at h2
+      show (parseBib text true wanted macros0 roles).2 = _
+      rw [h3, h2.1]
+
+/-- both cases of `C10_modes` occur: an error-free text with two entries, and a text whose first
+problem (an undefined macro, line 2) is raised in strict mode while continue mode goes on, reports
+a second problem and keeps both entries -/
+theorem C10_modes_nonvacuous :
+    (parseBib "@a{k, t = 1}\n@b{j, u = {x}}".toList false none).1.errs = [] ∧
+    (parseBib "@a{k, t = 1}\n@b{j, u = {x}}".toList true none).2 = none ∧
+    (parseBib "@a{k, t = 1}\n@b{j, u = {x}}".toList true none).1.db.entries.map (·.key)
+      = ["k".toList, "j".toList] ∧
+    (parseBib "@a{k, t = 1}\n@b{j, u = x, v = }".toList false none).1.errs
+      = [⟨.undefinedMacro "x".toList, some 2⟩, ⟨.tokenRequired "field value", some 2⟩] ∧
+    (parseBib "@a{k, t = 1}\n@b{j, u = x, v = }".toList false none).1.db.entries.map (·.key)
+      = ["k".toList, "j".toList] ∧
+    (parseBib "@a{k, t = 1}\n@b{j, u = x, v = }".toList true none).2
+      = some ⟨.undefinedMacro "x".toList, some 2⟩ := by decide +kernel
+
+/-- **Nothing read later alters what was read before.**  `afterCommands k …` is the reader state
+after the first `k` commands of the text (the command loop stopped after `k` rounds).  Its entries,
+preamble and reported problems are initial segments of those of the complete run: entries are only
+ever appended — never changed, reordered or removed — whatever follows, well-formed or not. -/
+theorem C10_prefix_stable (text : Str) (strict : Bool) (wanted : Option (List Str))
+    (macros0 : List (Str × Str)) (roles : List Str) (k : Nat) :
+    (afterCommands k text strict wanted macros0 roles).db.entries
+        <+: (parseBib text strict wanted macros0 roles).1.db.entries ∧
+    (afterCommands k text strict wanted macros0 roles).db.preamble
+        <+: (parseBib text strict wanted macros0 roles).1.db.preamble ∧
+    (afterCommands k text strict wanted macros0 roles).errs
+        <+: (parseBib text strict wanted macros0 roles).1.errs := by
+  have h := parseLoop_prefix k (text.length + 1) _ (initSt_inv text strict wanted macros0 roles)
+    (Nat.lt_succ_self _)
+  rw [← parseBib_eq] at h
+  exact ⟨h.2.2.2.2.1, h.2.2.2.2.2, h.2.2.2.1⟩
+
+/-- `afterCommands` with enough rounds is the complete run, and it does stop in between: after one
+command of this text only the first entry is there and nothing has been reported yet -/
+theorem C10_prefix_stable_nonvacuous :
+    (∀ text strict wanted macros0 roles,
+      afterCommands (text.length + 1) text strict wanted macros0 roles
+        = (parseBib text strict wanted macros0 roles).1) ∧
+    (afterCommands 1 "@a{k, t = 1}\n@b{j, u = }\n@c{l}".toList false none Gen.monthMacros
+        Gen.personRoles).db.entries.map (·.key) = ["k".toList] ∧
+    (afterCommands 1 "@a{k, t = 1}\n@b{j, u = }\n@c{l}".toList false none Gen.monthMacros
+        Gen.personRoles).errs = [] ∧
+    (afterCommands 2 "@a{k, t = 1}\n@b{j, u = }\n@c{l}".toList false none Gen.monthMacros
+        Gen.personRoles).db.entries.map (·.key) = ["k".toList, "j".toList] ∧
+    (parseBib "@a{k, t = 1}\n@b{j, u = }\n@c{l}".toList false none).1.db.entries.map (·.key)
+        = ["k".toList, "j".toList, "l".toList] ∧
+    (parseBib "@a{k, t = 1}\n@b{j, u = }\n@c{l}".toList false none).1.errs
+        = [⟨.tokenRequired "field value", some 2⟩] :=
+  ⟨fun _ _ _ _ _ => rfl, by decide +kernel⟩
+
+/-- **Confinement fails when the malformed entry contains an `@`** (known finding
+`C10-at-inside-malformed-entry`).  The second command `@misc{k, t = x y @misc{z, u = 1} }` has
+balanced braces and quotes.  Reading resynchronises at the `@` inside it, so a bogus entry `z`
+(`u = 1`) is read from the wreckage; the later, well-formed `@misc{z, v = 2}` is then rejected as a
+repeated entry.  Without the malformed command the text yields `p` and the real `z` (`v = 2`). -/
+theorem C10_confined_neg :
+    (parseBib "@misc{p, t = 1}\n@misc{k, t = x y @misc{z, u = 1} }\n@misc{z, v = 2}\n".toList
+        false none).1.db.entries.map (fun e => (e.key, e.fields))
+      = [("p".toList, [("t".toList, "1".toList)]), ("k".toList, [("t".toList, [])]),
+         ("z".toList, [("u".toList, "1".toList)])] ∧
+    (parseBib "@misc{p, t = 1}\n@misc{k, t = x y @misc{z, u = 1} }\n@misc{z, v = 2}\n".toList
+        false none).1.errs
+      = [⟨.undefinedMacro "x".toList, some 2⟩, ⟨.tokenRequired "'}'", some 2⟩,
+         ⟨.repeatedEntry "z".toList, none⟩] ∧
+    (parseBib "@misc{p, t = 1}\n\n@misc{z, v = 2}\n".toList
+        false none).1.db.entries.map (fun e => (e.key, e.fields))
+      = [("p".toList, [("t".toList, "1".toList)]), ("z".toList, [("v".toList, "2".toList)])] := by
+  decide +kernel
+
 end Pybtex.Props
